@@ -23,7 +23,7 @@ Block           <==(local / global /
                     Break / Continue / Fallthrough /
                     Goto / Label /
                     Preprocess /
-                    Assign / call /
+                    call !(`.` / `[`) / Assign / call /
                     `;`)*
 
 -- Statements
